@@ -203,12 +203,151 @@ def gen_dispatch():
     return note
 
 
+def _translate_theory():
+    """DataMixin._calc_theory read as straight-line code over three symbols: the caller's background, the kernel
+    evaluated with a given background parameter, the resolution's apply.  Returns the Coq term of the returned value.
+    Vector terms: kernel (s) | resolution (v) | map (fun x => add O x (s)) (v); scalar terms: zero O | background_in |
+    if sesans then a else b.  Anything else that reaches a tracked name is Untranslatable (fail-closed)."""
+    import ast
+    import os
+    tree = ast.parse(open(os.path.join(common.REPO, "sasmodels", "direct_model.py")).read())
+    fn = [f for c in tree.body if isinstance(c, ast.ClassDef) and c.name == "DataMixin" for f in c.body
+          if isinstance(f, ast.FunctionDef) and f.name == "_calc_theory"]
+    if len(fn) != 1:
+        raise Untranslatable("DataMixin._calc_theory not found")
+    env = {"pars": ("pars",), "cutoff": None}
+    state = {"pars_bg": ("s", "background_in")}
+
+    def key(t):
+        if isinstance(t, ast.Name):
+            return t.id
+        if isinstance(t, ast.Attribute) and isinstance(t.value, ast.Name) and t.value.id == "self":
+            return "self." + t.attr
+        return None
+
+    def ev(e):
+        k = key(e)
+        if k is not None:
+            if env.get(k) is None:
+                raise Untranslatable("value of %s is not tracked" % k)
+            return env[k]
+        if isinstance(e, ast.Constant) and isinstance(e.value, (int, float)) and e.value == 0:
+            return ("s", "zero O")
+        if isinstance(e, ast.IfExp):
+            if ast.unparse(e.test) == "self.data_type != 'sesans'":
+                a, b = ev(e.orelse), ev(e.body)
+            elif ast.unparse(e.test) == "self.data_type == 'sesans'":
+                a, b = ev(e.body), ev(e.orelse)
+            else:
+                raise Untranslatable("condition %s" % ast.unparse(e.test))
+            if a[0] != "s" or b[0] != "s":
+                raise Untranslatable("conditional between arrays")
+            return ("s", "(if sesans then %s else %s)" % (a[1], b[1]))
+        if isinstance(e, ast.Call):
+            f = ast.unparse(e.func)
+            if f == "pars.get" and len(e.args) == 2 and ast.unparse(e.args[0]) == "'background'" and ast.unparse(e.args[1]) == "default_background" and env.get("pars") == ("pars",):
+                return state["pars_bg"]
+            if f == "pars.copy" and not e.args and env.get("pars") == ("pars",):
+                return ("pars",)
+            if f == "call_kernel" and [ast.unparse(a) for a in e.args] == ["self._kernel", "pars"] and [(k_.arg, ast.unparse(k_.value)) for k_ in e.keywords] == [("cutoff", "cutoff")] \
+                    and env.get("pars") == ("pars",):
+                return ("v", "kernel (%s)" % state["pars_bg"][1])
+            if f == "self.resolution.apply" and len(e.args) == 1 and not e.keywords:
+                a = ev(e.args[0])
+                if a[0] != "v":
+                    raise Untranslatable("apply of a scalar")
+                return ("v", "resolution (%s)" % a[1])
+            raise Untranslatable("call %s" % ast.unparse(e))
+        if isinstance(e, ast.BinOp) and isinstance(e.op, ast.Add):
+            a, b = ev(e.left), ev(e.right)
+            if a[0] == "s" and b[0] == "s":
+                return ("s", "add O (%s) (%s)" % (a[1], b[1]))
+            if a[0] == "v" and b[0] == "s":
+                return ("v", "map (fun x => add O x (%s)) (%s)" % (b[1], a[1]))
+            if a[0] == "s" and b[0] == "v":
+                return ("v", "map (fun x => add O (%s) x) (%s)" % (a[1], b[1]))
+            raise Untranslatable("sum of two arrays")
+        raise Untranslatable("expression %s" % ast.unparse(e))
+
+    def stores(node):
+        out = []
+        for n in ast.walk(node):
+            if isinstance(n, (ast.Assign, ast.AugAssign, ast.AnnAssign)):
+                for t in (n.targets if isinstance(n, ast.Assign) else [n.target]):
+                    for x in ast.walk(t):
+                        if isinstance(x, (ast.Name, ast.Attribute)) and key(x) is not None and isinstance(getattr(x, "ctx", None), ast.Store):
+                            out.append(key(x))
+                        if isinstance(x, ast.Subscript) and ast.unparse(x.value) == "pars":
+                            out.append("pars[]")
+        return out
+    for st in fn[0].body:
+        if isinstance(st, ast.Expr) and isinstance(st.value, ast.Constant):
+            continue
+        if isinstance(st, ast.Return):
+            r = ev(st.value)
+            if r[0] != "v":
+                raise Untranslatable("returns a scalar")
+            return r[1]
+        if isinstance(st, ast.Assign) and len(st.targets) == 1:
+            t = st.targets[0]
+            if isinstance(t, ast.Subscript) and ast.unparse(t.value) == "pars":
+                if ast.unparse(t.slice) != "'background'":
+                    raise Untranslatable("assignment to %s" % ast.unparse(t))
+                v = ev(st.value)
+                if v[0] != "s":
+                    raise Untranslatable("array stored as background")
+                state["pars_bg"] = v
+                continue
+            k = key(t)
+            if k is None:
+                raise Untranslatable("assignment to %s" % ast.unparse(t))
+            try:
+                env[k] = ev(st.value)
+            except Untranslatable:
+                if k in ("pars", "self._kernel", "self.resolution", "cutoff"):
+                    raise
+                env[k] = None          # unknown value: an error only if it is used later
+            continue
+        if isinstance(st, ast.If):
+            touched = stores(st)
+            if "pars[]" in touched or any(k in ("pars", "cutoff", "self.resolution", "self.data_type") for k in touched):
+                raise Untranslatable("conditional statement changes %s" % touched)
+            for k in touched:
+                if k == "self._kernel" and ast.unparse(st.test) == "self._kernel is None":
+                    continue
+                env[k] = None
+            continue
+        raise Untranslatable("statement %s" % ast.unparse(st).splitlines()[0])
+    raise Untranslatable("no return statement")
+
+
+def gen_theory():
+    import os
+    lines = ["(* GENERATED by harness/c03.py from sasmodels/direct_model.py (DataMixin._calc_theory: where the flat background enters) *)",
+             "From Coq Require Import List Bool.", "From SM Require Import Base.Num.", ""]
+    note = None
+    try:
+        term = _translate_theory()
+    except (Untranslatable, OSError, SyntaxError) as exc:
+        note = "%s: %s" % (type(exc).__name__, exc)
+        term = "map (fun x => add O x (if sesans then zero O else background_in)) (resolution (kernel (zero O)))"
+    lines.append("Definition theory_translated : bool := %s." % ("true" if note is None else "false"))
+    if note:
+        lines.append("(* not translated: %s *)" % note.replace("*)", "* )"))
+    lines += ["Definition code_theory {T : Type} (O : Ops T) (sesans : bool) (resolution : list T -> list T) (kernel : T -> list T) (background_in : T) : list T :=",
+              "  %s." % term, ""]
+    common.write_if_changed(os.path.join(common.THEORIES, "Gen", "C03_theory.v"), "\n".join(lines))
+    return note
+
+
 DISPATCH_NOTE = [None]
+THEORY_NOTE = [None]
 
 
 def gen():
     """Regenerate Gen/C03_code.v from the text of sasmodels/resolution.py and Gen/C03_dispatch.v from direct_model.py."""
     DISPATCH_NOTE[0] = gen_dispatch()
+    THEORY_NOTE[0] = gen_theory()
     return _gen_code()
 
 
@@ -265,6 +404,8 @@ def main(run):
     else:
         run.notes.append(("the choice of the 1-D resolution class in _interpret_data not translated (%s): C03_code_dispatch is vacuous" % DISPATCH_NOTE[0]) if DISPATCH_NOTE[0] else
                          "the choice of the 1-D resolution class read from the current direct_model.py (Gen/C03_dispatch.v): a data set with at least one positive width is smeared (C03_code_dispatch, C03_positive_width_is_smeared)")
+        run.notes.append(("where the background enters DataMixin._calc_theory not translated (%s): C03_code_theory is vacuous" % THEORY_NOTE[0]) if THEORY_NOTE[0] else
+                         "where the flat background enters read from the current DataMixin._calc_theory (Gen/C03_theory.v): kernel asked for background 0, caller's background added to the smeared values (C03_code_theory, C03_code_background_after)")
         run.notes.append("bin_edges, pinhole_resolution, _q_perp_weights and apply_resolution_matrix translated from the current resolution.py (Gen/C03_code.v, symbolic numpy evaluation) and proved equal to the model (C03_code_*)")
     cases, metas = [], []
     ecases, emetas = [], []
